@@ -250,7 +250,7 @@ def trace_violation(e, rj, cls):
         'summary': {'grammar': e.gid, 'rules': ['%s -> %s%s' % (l, ' '.join(r) or 'eps', ' [%d]' % p if p else '') for (l, r, p) in e.g.rules],
                     'input': bytes(t['bytes']).decode('latin-1'), 'options': {'verbose': t['verbose'], 'ws': t['ws'], 'nl': t['nl'], 'stream': t['stream']},
                     'class': cls, 'spec_expected': rj['why'], 'real_event': evs[pos - 1] if 0 < pos <= len(evs) else None, 'real_ok': t['ok']},
-        'kind': 'parser', 'gname': e.g.name, 'mode': e.mode, 'gid': e.gid, 'dflt': list(getattr(e, 'dflt', ())), 'lexterms': getattr(e, 'lexterms', None), 'lexshape': getattr(e, 'lexshape', 'list'), 'clex': getattr(e, 'clex', False), 'ctxr': list(getattr(e, 'ctx', ())), 'postprec': list(getattr(e, 'postprec', ())), 'ctx': t.get('ctx', 0),
+        'kind': 'parser', 'gname': e.g.name, 'mode': e.mode, 'gid': e.gid, 'dflt': list(getattr(e, 'dflt', ())), 'lexterms': getattr(e, 'lexterms', None), 'lexshape': getattr(e, 'lexshape', 'list'), 'clex': getattr(e, 'clex', False), 'ctxr': list(getattr(e, 'ctx', ())), 'postprec': list(getattr(e, 'postprec', ())), 'defines': list(getattr(e, 'defines', ())), 'noval': list(getattr(e, 'noval', ())), 'ctx': t.get('ctx', 0),
         'grammar': {'nts': e.g.nts, 'ts': e.g.ts, 'root': e.g.root, 'rules': e.g.rules, 'tprec': e.g.tprec, 'tassoc': e.g.tassoc},
         'bytes': t['bytes'], 'ws': t['ws'], 'nl': t['nl'], 'verbose': t['verbose'], 'stream': t['stream'], 'buf': t['buf']}
 
@@ -1012,6 +1012,20 @@ def check_C17(tier, seed):
     for i in range(3000 if tier == 'quick' else 60000):
         n = rng.choice([4, 5, 6, 7, 8]) if tier == 'quick' else rng.choice([5, 6, 7, 8, 9, 10])
         jobs.append(('t%d' % len(jobs), [rng.choice(alpha) for _ in range(n)], []))
+    # every byte value in operator / operand / set / escape positions (byte classes: control, high bit, aliases of the
+    # metacharacters modulo 128 or with the sign bit set)
+    A, B = ord('a'), ord('b')
+    for v in range(256):
+        for t in ([A, v], [v, A], [A, v, B], [ord('('), A, v], [ord('['), v, ord(']')], [ord('['), A, ord('-'), v, ord(']')], [ord('\\'), v], [A, ord('{'), v, ord('}')]):
+            jobs.append(('t%d' % len(jobs), t, []))
+    for ptxt in ('a*', 'a+b', 'a?', '(ab)c', 'a{3}', '[0-9]+', 'a|b', '(a|b)*c', 'a{2}b', '[ab]?', '.a', 'a\\+'):
+        b0 = list(ptxt.replace('\\\\', '\\').encode('latin-1'))
+        meta = [i for i, c in enumerate(b0) if chr(c) in '()*+?{}|[].\\-']
+        for flip in [meta] + [[i] for i in meta]:
+            m = list(b0)
+            for i in flip:
+                m[i] |= 0x80
+            jobs.append(('t%d' % len(jobs), m, []))
     # mutations of valid patterns (drop / duplicate / insert one byte)
     base = [rxl.render(a) for a in rxl.enum_asts(3)][::7] + rxl.repo_patterns()
     for ptxt in base:
@@ -1747,6 +1761,11 @@ def check_C18(tier, seed):
         if len(toks) > 9:
             toks = toks[:3] + rng.sample(toks[3:], 6)
         alpha = toks + [0x20, 0x0a, 0x21, 0x00]
+        if not e.g.has_error():
+            # zero-length answers (virtual terms): byte 0x80 + i = term i with length 0, once per offset, then length 1
+            # (not for error-rule grammars: discarding a zero-length term in consume mode makes no progress - the
+            # library would ask again for ever; that is a property of such a lexer, not of the parser)
+            alpha += [0x80 + i for i in range(min(nt, 2))] + [0x80 + nt]
         ins = []
         for sx in gram.all_strings(alpha, L):
             ins.append(sx)
@@ -1773,7 +1792,7 @@ def check_C18(tier, seed):
     judge_traces(out, entries, res, {'table', 'step', 'functor', 'report', 'position', 'verdict', 'tree', 'extra', 'recovery', 'threw', 'oob', 'lexcall', 'partial-line'}, domain)
     out.coverage = base_coverage(res, {
         'grammars': len(entries), 'lexer_calls_validated': res.event_kinds.get('lexcall', 0), 'custom_term_values_validated': res.event_kinds.get('tval', 0),
-        'bounds': {'L_all_inputs': L, 'lexer_answers': 'term index 0..#terms (one out of range), length 1..3, no-term, length beyond the input'},
+        'bounds': {'L_all_inputs': L, 'lexer_answers': 'term index 0..#terms (one out of range), length 0 (virtual terms) and 1..3, no-term, length beyond the input'},
         'samples': sample_traces(entries, 3), 'exhaustive': False})
     out.assumptions = std_assumptions() + ['the custom lexer is harness/rt.hpp byte_lexer: its answer is a function of the byte it is asked at (Tables!LexByte), so the inputs enumerate arbitrary (index, length) answers']
     return out
@@ -1797,7 +1816,10 @@ def check_C13(tier, seed):
         for vi, cs in enumerate(variants):
             # rules with a precedence: written (rule[p] >>= f) in odd variants and (rule >>= f)[p] in even ones
             pp = [i for i, (_, _, pr) in enumerate(g.rules) if pr] if vi % 2 == 0 else []
-            entries.append(pipeline.gen_entry(g, gid='%s@ctx%d' % (n, vi), ctx=sorted(cs), postprec=pp))
+            # value-less nonterminals (nterm<no_type>) in the even variants: every non-root nonterminal that is not the left
+            # side of a functor-less rule; their functors (>= and >>=) are still called, in order, with the context
+            nv = [i for i, x in enumerate(g.nts) if x != g.root] if vi % 2 == 0 else []
+            entries.append(pipeline.gen_entry(g, gid='%s@ctx%d' % (n, vi), ctx=sorted(cs), postprec=pp, noval=nv))
     L = 4 if tier == 'quick' else 5
     for e in entries:
         ins = all_inputs(e.g, L if len(e.g.ts) <= 3 else L - 1, 300 if tier == 'quick' else 2000)
@@ -1874,6 +1896,9 @@ def check_C14(tier, seed):
     for n in names:
         g = cat[n]
         entries.append(pipeline.gen_entry(g, gid=n + '@val'))
+        if len(entries) % 2:
+            # the same grammar with a value type whose move operations are not declared noexcept: still moved, never copied
+            entries.append(pipeline.gen_entry(g, gid=n + '@valmt', defines=('VH_MOVE_MAY_THROW',)))
         if not g.has_error():
             entries.append(pipeline.gen_entry(g, gid=n + '@valdflt', dflt=sorted(range(0, len(g.rules), 2))))
         entries.append(pipeline.gen_entry(g, gid=n + '@valctx', ctx=sorted(range(0, len(g.rules), 2))))
@@ -2191,7 +2216,7 @@ def replay(pid, path):
         elif v.get('lexterms'):
             e = pipeline.lex_entry(v['gname'], [tuple(t) for t in v['lexterms']], v.get('lexshape', 'list'))
         elif v['mode'] == 'gen':
-            e = pipeline.gen_entry(g, dflt=v.get('dflt', ()), ctx=v.get('ctxr', ()), postprec=v.get('postprec', ()))
+            e = pipeline.gen_entry(g, dflt=v.get('dflt', ()), ctx=v.get('ctxr', ()), postprec=v.get('postprec', ()), defines=v.get('defines', ()), noval=v.get('noval', ()))
         else:
             e = pipeline.host_entry(g, int(v['mode'][4:]))
         e.jobs = [('%s:replay' % e.gid, int(v.get('buf', 0)), int(v.get('stream', 0)), int(v.get('verbose', 1)), int(v['ws']), int(v['nl']), list(v['bytes']), int(v.get('ctx', 0)))]
